@@ -389,7 +389,7 @@ pub fn get_end_select_query(
     q.push_str(&filters);
 
     if entity.is_aggregate {
-        let group_by = get_group_by(&entity.fields, t);
+        let group_by = get_group_by(&entity.fields, prepared_query, t);
         q.push_str(&group_by);
         if !entity.params.aggregate_filters.is_empty()
             | !entity.params.before.is_empty()
@@ -421,7 +421,7 @@ pub fn get_end_select_query(
     if !entity.params.order_by.is_empty() || entity.params.fulltext_search.is_some() {
         q.push('\n');
         tab(&mut q, t);
-        let order_by = get_order(&entity.params);
+        let order_by = get_order(&entity.params, prepared_query);
         q.push_str(&order_by);
     }
     q
@@ -440,6 +440,23 @@ fn js_field(field: &str) -> String {
 //the SQL value of a field: aggregates must compare numbers as numbers and ignore null
 fn js_value(field: &str) -> String {
     format!("_json->>'$.{}'", field)
+}
+
+//the SQL value of a field of the model, the default value standing for a value that is not stored
+fn js_value_default(
+    short_name: &str,
+    default_value: &Option<ParamValue>,
+    prepared_query: &mut SingleQuery,
+) -> String {
+    let default = match default_value {
+        Some(ParamValue::Boolean(b)) => b.to_string(),
+        Some(ParamValue::Integer(i)) => i.to_string(),
+        Some(ParamValue::Float(f)) => f.to_string(),
+        Some(ParamValue::String(s)) => prepared_query.add_param(String::from(s), true),
+        Some(ParamValue::Binary(s)) => prepared_query.add_param(String::from(s), true),
+        Some(ParamValue::Null) | None => return js_value(short_name),
+    };
+    format!("Ifnull({},{})", js_value(short_name), default)
 }
 
 fn get_fields(
@@ -596,7 +613,7 @@ fn get_fields(
                         let agg_field = if field.field.is_system {
                             field.field.name.clone()
                         } else {
-                            js_value(f)
+                            js_value_default(f, &field.field.default_value, prepared_query)
                         };
                         format!("'{}', avg({}) ", &field.name(), agg_field)
                     }
@@ -605,7 +622,7 @@ fn get_fields(
                         let agg_field = if field.field.is_system {
                             field.field.name.clone()
                         } else {
-                            js_value(f)
+                            js_value_default(f, &field.field.default_value, prepared_query)
                         };
                         format!("'{}', max({}) ", &field.name(), agg_field)
                     }
@@ -613,7 +630,7 @@ fn get_fields(
                         let agg_field = if field.field.is_system {
                             field.field.name.clone()
                         } else {
-                            js_value(f)
+                            js_value_default(f, &field.field.default_value, prepared_query)
                         };
                         format!("'{}', min({}) ", &field.name(), agg_field)
                     }
@@ -621,7 +638,7 @@ fn get_fields(
                         let agg_field = if field.field.is_system {
                             field.field.name.clone()
                         } else {
-                            js_value(f)
+                            js_value_default(f, &field.field.default_value, prepared_query)
                         };
                         format!("'{}', total({}) ", &field.name(), agg_field)
                     }
@@ -878,7 +895,7 @@ fn get_having_filters(params: &EntityParams, prepared_query: &mut SingleQuery, t
     q
 }
 
-pub fn get_order(params: &EntityParams) -> String {
+pub fn get_order(params: &EntityParams, prepared_query: &mut SingleQuery) -> String {
     let mut query = String::new();
     if params.fulltext_search.is_some() {
         query.push_str("ORDER BY rank");
@@ -897,8 +914,13 @@ pub fn get_order(params: &EntityParams) -> String {
                 query.push_str(&format!("{} {} ", &ord.name, direction));
             } else {
                 query.push_str(&format!(
-                    "_json->>'$.{}' {} ",
-                    &ord.field.short_name, direction
+                    "{} {} ",
+                    js_value_default(
+                        &ord.field.short_name,
+                        &ord.field.default_value,
+                        prepared_query
+                    ),
+                    direction
                 ));
             }
 
@@ -986,8 +1008,13 @@ pub fn get_paging(params: &EntityParams, prepared_query: &mut SingleQuery) -> St
                 q.push_str(&format!("{} = {}", &ord.name, value));
             } else {
                 q.push_str(&format!(
-                    "_json->>'$.{}' = {}",
-                    &ord.field.short_name, value
+                    "{} = {}",
+                    js_value_default(
+                        &ord.field.short_name,
+                        &ord.field.default_value,
+                        prepared_query
+                    ),
+                    value
                 ));
             }
 
@@ -1035,8 +1062,14 @@ pub fn get_paging(params: &EntityParams, prepared_query: &mut SingleQuery) -> St
             q.push_str(&format!("{} {} {}", &ord.name, ope, value));
         } else {
             q.push_str(&format!(
-                "_json->>'$.{}' {} {}",
-                &ord.field.short_name, ope, value
+                "{} {} {}",
+                js_value_default(
+                    &ord.field.short_name,
+                    &ord.field.default_value,
+                    prepared_query
+                ),
+                ope,
+                value
             ));
         }
 
@@ -1095,14 +1128,18 @@ pub fn get_limit(params: &EntityParams, prepared_query: &mut SingleQuery) -> Str
     query
 }
 
-fn get_group_by(fields: &Vec<QueryField>, t: usize) -> String {
+fn get_group_by(fields: &Vec<QueryField>, prepared_query: &mut SingleQuery, t: usize) -> String {
     let mut q = String::new();
 
     let mut v = Vec::new();
 
     for field in fields {
         if let QueryFieldType::Scalar = &field.field_type {
-            v.push(field.field.short_name.clone())
+            v.push(js_value_default(
+                &field.field.short_name,
+                &field.field.default_value,
+                prepared_query,
+            ))
         }
     }
     if !v.is_empty() {
@@ -1113,7 +1150,7 @@ fn get_group_by(fields: &Vec<QueryField>, t: usize) -> String {
 
     let it = &mut v.iter().peekable();
     while let Some(field) = it.next() {
-        q.push_str(&format!("_json->>'$.{}'", field));
+        q.push_str(field);
         if it.peek().is_some() {
             q.push(',');
         }
